@@ -150,7 +150,6 @@ impl<K: KeyT, V: ValT> World<K, V> {
         let mut result = co.result;
         if let Err(Panic::Injected(ctx::Site::Drop, _)) = &result {
             acc.probe("drain_filter-drop-panicked-destructor");
-            *acc.out.faults_extra.entry("panic@Drop").or_insert(0) += 1;
             result = Ok(());
         }
         match result {
